@@ -1,6 +1,6 @@
 import ReplicatProofs.Lemmas.Store
 import ReplicatProofs.Lemmas.Paging
-import ReplicatProofs.Lemmas.LocalFS
+import ReplicatProofs.Lemmas.LocalSpec
 /-!
 # C13 — all backends behave as the same simple object store
 
@@ -195,6 +195,11 @@ theorem b2_refines (ps : Nat) (hps : 1 ≤ ps) (s : B2) (hinv : s.Inv) (op : Op)
     intro n
     simp only [List.mem_filter, B2.mem_liveNames s hinv, List.isPrefixOf_iff_prefix, B2.abs]
 
+/-- the hypothesis of `b2_refines` in terms of characters: names without `.`/`..` segments and without `? # % +` qualify -/
+theorem b2_safe_names (n : Name) (hdot : hasDotSegment n = false)
+    (hchars : ∀ c ∈ n, c ≠ '?' ∧ c ≠ '#' ∧ c ≠ '%' ∧ c ≠ '+') : b2Addr n = some n :=
+  b2Addr_safe n hdot hchars
+
 /-- forced hypothesis (D8): B2 object names are put into the download URL unquoted; `?` ends the path, so `exists` looks at
 another object — after uploading `a?b` the adapter reports it missing -/
 theorem b2_url_metachar_witness :
@@ -263,5 +268,161 @@ theorem local_refines (U : Path → Prop) (hU : Universe U) (root : List Char) (
     cases fs.abs n with
     | none => rfl
     | some d => simp only [sinkAfter_eq sink c hc' d]
+
+/-- a prefix with a normal directory part is `dirname/basename` with valid directory segments -/
+theorem normalPrefix_split (pfx : Name) (h : normalPrefix pfx = true) :
+    ∃ ds bn, (∀ s ∈ ds, validSeg s = true) ∧ '/' ∉ bn ∧ pfx = joinSlash (ds ++ [bn]) := by
+  have hne := splitSlash_ne_nil pfx
+  obtain ⟨ds, bn, hsp⟩ : ∃ ds bn, splitSlash pfx = ds ++ [bn] := by
+    rcases List.eq_nil_or_concat (splitSlash pfx) with h0 | ⟨l, x, h0⟩
+    · exact absurd h0 hne
+    · exact ⟨l, x, by simpa using h0⟩
+  refine ⟨ds, bn, ?_, ?_, ?_⟩
+  · unfold normalPrefix at h
+    rw [hsp] at h
+    simpa using h
+  · exact splitSlash_seg_no_slash pfx bn (by rw [hsp]; simp)
+  · rw [← hsp, joinSlash_splitSlash]
+
+/-- **Local listing, as the code computes it.**  For a repository location with at least one pathlib part and a prefix whose
+directory part is normal, `list_files` (split the prefix, scan, recurse, drop `*.tmp`, slice by the root string) returns
+exactly the live names that start with the prefix *and do not end in `.tmp`*, each once. -/
+theorem local_list_spec (U : Path → Prop) (hU : Universe U) (fs : FS) (hinv : Inv U fs)
+    (root : List Char) (hroot : goodRoot root = true) (pfx : Name) (hp : normalPrefix pfx = true) :
+    ∃ l, LocalFS.list root fs pfx = .names l ∧ l.Nodup ∧
+      ∀ n, n ∈ l ↔ (fs.abs n).isSome = true ∧ pfx <+: n ∧ tmpName n = false := by
+  obtain ⟨ds, bn, hds, hbn, rfl⟩ := normalPrefix_split pfx hp
+  have hroot' : (pparse root).parts ≠ [] := by simpa [goodRoot] using hroot
+  refine ⟨_, list_normal_form hU hinv root hroot' ds hds bn hbn, (nodup_listNF hU hinv ds bn).filter _, ?_⟩
+  intro n
+  simp only [List.mem_filter, mem_listNF hU hinv ds hds bn hbn, abs_isSome_iff hU hinv, tmpName, Bool.not_eq_true']
+  constructor
+  · rintro ⟨⟨q, hq, rfl, hpre⟩, ht⟩; exact ⟨⟨q, hq, rfl⟩, hpre, ht⟩
+  · rintro ⟨⟨q, hq, rfl⟩, hpre, ht⟩; exact ⟨⟨q, hq, rfl, hpre⟩, ht⟩
+
+/-- **Local listing refines the map** — `_partial`: besides the universe of the property it needs (i) a repository location
+with at least one pathlib part (fails for `.`, `''`, `./`: D6), (ii) a prefix whose directory part is a normal relative
+path, (iii) no object name ending in `.tmp` (D7).  Missing for the full statement: (i) and (iii) are defects of the code
+(witnesses below), (ii) is where `os.path.split` / pathlib normalisation and plain string prefixes part ways. -/
+theorem local_list_refines_partial (U : Path → Prop) (hU : Universe U) (fs : FS) (hinv : Inv U fs)
+    (root : List Char) (hroot : goodRoot root = true) (pfx : Name) (hp : normalPrefix pfx = true)
+    (hnotmp : ∀ p, U p → tmpName (joinSlash p) = false) :
+    Inv U (LocalFS.step root fs (.list pfx)).1 ∧
+    SpecStep fs.abs (.list pfx) (LocalFS.step root fs (.list pfx)).1.abs (LocalFS.step root fs (.list pfx)).2 := by
+  obtain ⟨l, hl, hnd, hmem⟩ := local_list_spec U hU fs hinv root hroot pfx hp
+  refine ⟨hinv, rfl, l, hl, hnd, ?_⟩
+  intro n
+  rw [hmem]
+  constructor
+  · rintro ⟨h1, h2, _⟩; exact ⟨h1, h2⟩
+  · rintro ⟨h1, h2⟩
+    refine ⟨h1, h2, ?_⟩
+    obtain ⟨q, hq, rfl⟩ := (abs_isSome_iff hU hinv n).mp h1
+    exact hnotmp q (hinv.filesU q hq)
+
+/-- **The spelling of the repository location does not matter**: two locations with at least one pathlib part give the same
+listing (same list, not only the same set) for every prefix with a normal directory part, and every other operation does
+not look at the spelling at all. -/
+theorem root_spelling (U : Path → Prop) (hU : Universe U) (fs : FS) (hinv : Inv U fs)
+    (r1 r2 : List Char) (h1 : goodRoot r1 = true) (h2 : goodRoot r2 = true) (op : Op)
+    (hop : ∀ pfx, op = .list pfx → normalPrefix pfx = true) :
+    LocalFS.step r1 fs op = LocalFS.step r2 fs op := by
+  cases op with
+  | list pfx =>
+    obtain ⟨ds, bn, hds, hbn, rfl⟩ := normalPrefix_split pfx (hop pfx rfl)
+    have h1' : (pparse r1).parts ≠ [] := by simpa [goodRoot] using h1
+    have h2' : (pparse r2).parts ≠ [] := by simpa [goodRoot] using h2
+    simp only [LocalFS.step, list_normal_form hU hinv r1 h1' ds hds bn hbn, list_normal_form hU hinv r2 h2' ds hds bn hbn]
+  | upload n d => rfl
+  | uploadStream n d c => rfl
+  | delete n => rfl
+  | exists_ n => rfl
+  | download n => rfl
+  | downloadStream n c sink => rfl
+
+/-- D6, forced hypothesis (i): with the repository spelled `.` and a prefix that has a directory part, every returned name
+has lost its first two characters (`Path('.') / 'data'` is `data`, not `./data`, but `len('.') + 1` characters are cut) -/
+theorem d6_root_dot_witness :
+    goodRoot ".".toList = false ∧
+    LocalFS.list ".".toList (FS.empty.upload ["data".toList, "ab".toList] [1]) "data/".toList = .names ["ta/ab".toList] ∧
+    LocalFS.list "repo".toList (FS.empty.upload ["data".toList, "ab".toList] [1]) "data/".toList = .names ["data/ab".toList] := by
+  refine ⟨by decide, by decide, by decide⟩
+
+/-- D7, forced hypothesis (iii): an object whose name ends in `.tmp` exists, can be downloaded, and is never listed -/
+theorem d7_tmp_hidden_witness :
+    ((FS.empty.upload ["a".toList, "x.tmp".toList] [1]).abs "a/x.tmp".toList).isSome = true ∧
+    LocalFS.list "repo".toList (FS.empty.upload ["a".toList, "x.tmp".toList] [1]) "a/".toList = .names [] := by
+  refine ⟨by decide, by decide⟩
+
+/-- hypothesis (ii) is needed: for the prefix `a//` the code lists `a/b`, which does not start with `a//` -/
+theorem abnormal_prefix_witness :
+    normalPrefix "a//".toList = false ∧
+    LocalFS.list "repo".toList (FS.empty.upload ["a".toList, "b".toList] [1]) "a//".toList = .names ["a/b".toList] ∧
+    ¬ ("a//".toList <+: "a/b".toList) := by
+  refine ⟨by decide, by decide, by decide⟩
+
+/-! ## histories -/
+
+/-- **Refinement lifts to histories**: if every step of an adapter model refines the specification (under an invariant and a
+side condition on the operations), every history returns what the map returns, operation by operation. -/
+theorem history_refines {σ : Type} (step : σ → Op → σ × Ret) (abs : σ → Spec) (inv : σ → Prop) (ok : Op → Prop)
+    (hstep : ∀ s op, inv s → ok op → inv (step s op).1 ∧ SpecStep (abs s) op (abs (step s op).1) (step s op).2)
+    (s : σ) (hs : inv s) (ops : List Op) (hok : ∀ op ∈ ops, ok op) :
+    inv (runHistory step s ops).1 ∧ SpecRun (abs s) ops (abs (runHistory step s ops).1) (runHistory step s ops).2 := by
+  induction ops generalizing s with
+  | nil => exact ⟨hs, SpecRun.nil _⟩
+  | cons op ops ih =>
+    obtain ⟨h1, h2⟩ := hstep s op hs (hok op (by simp))
+    obtain ⟨h3, h4⟩ := ih (step s op).1 h1 (fun o ho => hok o (List.mem_cons_of_mem _ ho))
+    exact ⟨h3, SpecRun.cons h2 h4⟩
+
+/-- what a history over the local adapter may contain (the region of the theorems above) -/
+def LocalOk (U : Path → Prop) (op : Op) : Prop :=
+  ChunkOk op ∧ match op with
+    | .list pfx => normalPrefix pfx = true
+    | op => NameOk (fun n => validName n = true ∧ U (splitSlash n)) op
+
+/-- **All three adapters, every history** (`_partial` through the hypotheses of the step theorems): starting empty, the S3
+model (any page size ≥ 1), the B2 model (any page size ≥ 1) and the local model (any good spelling of the location) each
+return, operation by operation, what the name-to-bytes map returns. -/
+theorem all_adapters_history_partial (ps : Nat) (hps : 1 ≤ ps) (U : Path → Prop) (hU : Universe U)
+    (hnotmp : ∀ p, U p → tmpName (joinSlash p) = false) (root : List Char) (hroot : goodRoot root = true)
+    (ops : List Op)
+    (hs3 : ∀ op ∈ ops, NameOk (fun n => hasDotSegment n = false) op ∧ ChunkOk op)
+    (hb2 : ∀ op ∈ ops, NameOk (fun n => b2Addr n = some n) op ∧ ChunkOk op)
+    (hloc : ∀ op ∈ ops, LocalOk U op) :
+    SpecRun Spec.empty ops (MapStore.abs (runHistory (S3.step ps) [] ops).1) (runHistory (S3.step ps) [] ops).2 ∧
+    SpecRun Spec.empty ops (B2.abs (runHistory (B2.step ps) [] ops).1) (runHistory (B2.step ps) [] ops).2 ∧
+    SpecRun Spec.empty ops (FS.abs (runHistory (LocalFS.step root) FS.empty ops).1) (runHistory (LocalFS.step root) FS.empty ops).2 := by
+  refine ⟨?_, ?_, ?_⟩
+  · exact (history_refines (S3.step ps) MapStore.abs MapStore.Inv _
+      (fun s op hi ho => s3_refines ps hps s hi op ho.1 ho.2) [] List.nodup_nil ops hs3).2
+  · exact (history_refines (B2.step ps) B2.abs B2.Inv _
+      (fun s op hi ho => b2_refines ps hps s hi op ho.1 ho.2) [] List.nodup_nil ops hb2).2
+  · have h := (history_refines (LocalFS.step root) FS.abs (Inv U) (LocalOk U) ?_ FS.empty (Inv.empty U) ops hloc).2
+    · have he : FS.empty.abs = Spec.empty := by
+        funext n; unfold FS.abs Spec.empty; by_cases hv : validName n = true <;> simp [hv, FS.get, FS.empty, alookup]
+      rw [he] at h; exact h
+    · intro fs op hi ho
+      cases op with
+      | list pfx => exact local_list_refines_partial U hU fs hi root hroot pfx ho.2 hnotmp
+      | upload n d => exact local_refines U hU root fs hi _ ho.2 ho.1 rfl
+      | uploadStream n d c => exact local_refines U hU root fs hi _ ho.2 ho.1 rfl
+      | delete n => exact local_refines U hU root fs hi _ ho.2 ho.1 rfl
+      | exists_ n => exact local_refines U hU root fs hi _ ho.2 ho.1 rfl
+      | download n => exact local_refines U hU root fs hi _ ho.2 ho.1 rfl
+      | downloadStream n c sink => exact local_refines U hU root fs hi _ ho.2 ho.1 rfl
+
+/-- non-vacuity: a concrete universe, a concrete history inside every hypothesis above, and what the three models return -/
+example :
+    (runHistory (S3.step 1) [] [.upload "a/b".toList [1], .upload "a/c".toList [2], .delete "a/b".toList, .list "a/".toList]).2
+      = [.unit, .unit, .unit, .names ["a/c".toList]] ∧
+    (runHistory (B2.step 1) [] [.upload "a/b".toList [1], .upload "a/c".toList [2], .delete "a/b".toList, .list "a/".toList]).2
+      = [.unit, .unit, .unit, .names ["a/c".toList]] ∧
+    (runHistory (LocalFS.step "x/../repo/".toList) FS.empty
+        [.upload "a/b".toList [1], .upload "a/c".toList [2], .delete "a/b".toList, .list "a/".toList]).2
+      = [.unit, .unit, .unit, .names ["a/c".toList]] ∧
+    goodRoot "x/../repo/".toList = true ∧ normalPrefix "a/".toList = true ∧ b2Addr "a/b".toList = some "a/b".toList := by
+  refine ⟨by decide, by decide, by decide, by decide, by decide, by decide⟩
 
 end Replicat.C13
